@@ -624,6 +624,92 @@ def gen_cm_onedir(rng, natural=False):
                 lambda_from_center=False, cell_numbers=cells, onedir=f"{which}:{'xyz'[d]}")
 
 
+def gen_cm_marine(rng, natural=False):
+    """Marine construct_mesh call: sea surface + user z-vector.  The sea surface
+    is / is not a node of the vector; the z-domain (domain or distance) ends
+    below / at / above the sea surface with >= 3 vector nodes inside; regular
+    and irregular vectors; the vector reaches z only (tuple / dict with Nones),
+    or x and z.  natural=True: default stretching and cell numbers (searcher)."""
+    freq = rng.choice([0.5, 1.0, 2.0, 4.0])
+    mapping = rng.choice(MAPS)
+    nprops = rng.choice([0, 1, 2, 3, 4, 7])
+    props = [prop_value(rng, mapping) for _ in range(max(nprops, 1))]
+    sd0 = skin_depths(dict(frequency=freq, properties=props, mapping=mapping))[0]
+    u = max(4.0, float(4 * round(sd0 / 12)))             # multiple of 4
+    cxy = float(rng.randint(-20, 20) * 16)
+    cz = float(-rng.randint(2, 30) * 16)
+    center = [cxy, cxy if rng.random() < 0.5 else cxy + 32.0, cz]
+    # z-vector: n cells, the centre between node kc and kc+1 (or on node kc)
+    n = rng.randint(5, 9)
+    regular = rng.random() < 0.5
+    ws = [u if regular else rng.choice([u / 2, u, 3 * u / 4, 5 * u / 4]) for _ in range(n)]
+    kc = rng.randint(1, 2)
+    start = cz - sum(ws[:kc]) - rng.choice([0.0, 0.0, u / 4])
+    zv = [start]
+    for w in ws:
+        zv.append(zv[-1] + w)
+    above = [k for k in range(len(zv)) if zv[k] > cz]
+    j = rng.choice(above[2:] if len(above) > 3 else above[-1:])     # sea-surface node index
+    node = rng.random() < 0.6
+    sea = zv[j] if node else zv[j] + rng.choice([u / 8, u / 4, -u / 8, 3 * u / 8])
+    rel = rng.choice(['below', 'below', 'below', 'at', 'above', 'vector'])
+    lo = zv[0] - rng.choice([0.0, u, u / 4]) if rng.random() < 0.6 else zv[1] + rng.choice([0.0, u / 4])
+    if rel == 'below':
+        top = rng.choice([zv[j - 1], zv[j - 1] + u / 8, zv[j - 1] - u / 8])
+    elif rel == 'at':
+        top = sea
+    else:
+        top = max(sea, zv[-1]) + rng.choice([u / 2, u, 2 * u])
+    a, b = rng.randint(1, 3), rng.randint(1, 3)
+    dxy = (cxy - a * u, center[1] + b * u)
+    domain, distance = NONE, NONE
+    if rel == 'vector':
+        # no z-domain: it comes from the vector (x, y from domain)
+        pv = pair_val(rng, dxy)
+        domain = only_xy(rng, pv)
+    elif rng.random() < 0.7:
+        pv = pair_val(rng, dxy)
+        pz = pair_val(rng, (lo, top))
+        domain = ('dict', pv, pv, pz) if rng.random() < 0.5 else seq([pv, pv, pz], rng.choice(['list', 'tuple']))
+    else:
+        pv = pair_val(rng, dxy)
+        domain = only_xy(rng, pv)
+        distance = only_dir(rng, 2, pair_val(rng, (cz - lo, top - cz)))
+    vecz = ('arr', zv)
+    if rng.random() < 0.2:
+        xv = [cxy - 2 * u, cxy - u, cxy, cxy + u, cxy + 2 * u]
+        vector = ('dict', ('arr', xv), NONE, vecz) if rng.random() < 0.5 else seq([('arr', xv), NONE, vecz], 'tuple')
+    else:
+        vector = only_dir(rng, 2, vecz)
+    if natural:
+        stretching = NONE if rng.random() < 0.7 else pair_val(rng, (rng.choice([1.0, 1.05]), rng.choice([1.3, 1.5])))
+        cells = [int(x) for x in __import__('emg3d').meshes.good_mg_cell_nr(1024, 5, rng.choice([2, 3]))]
+        lam, mb = rng.choice([1.0, 0.5, 0.25]), rng.choice([100000.0, 20 * u, 50 * u])
+        limits = rng.choice([NONE, ('num', u)])
+    else:
+        stretching = NONE if rng.random() < 0.2 else pair_val(rng, (1.0, 1 + rng.randint(4, 14) / 1024))
+        m = rng.randint(1, 4)
+        mb = m * u * (1 + rng.choice([1 / 64, 1 / 32, 1 / 16]))
+        lam = 1.0
+        lo_n = rng.choice([8, 10, 12, 16])
+        cells = list(range(lo_n, lo_n + 2 * rng.randint(6, 12), 2))
+        limits = ('num', u)
+    coe = rng.choice([NONE, ('bool', True), ('bool', False)])
+    return dict(frequency=freq, mapping=mapping, properties=props, scalar_props=(nprops == 0),
+                center=center, domain=domain, vector=vector, distance=distance,
+                stretching=stretching, limits=limits, pps=NONE, coe=coe,
+                seasurface=float(sea), lambda_factor=lam, max_buffer=float(mb),
+                lambda_from_center=False, cell_numbers=cells,
+                marine=f"{'node' if node else 'offnode'}/{rel}/{'regular' if regular else 'irregular'}")
+
+
+def only_xy(rng, v):
+    """Value for x and y, None for z (dict or 3-sequence)."""
+    if rng.random() < 0.5:
+        return ('dict', v, v, NONE)
+    return seq([v, v, NONE], rng.choice(['list', 'tuple']))
+
+
 def run_cm(case):
     import emg3d
     from emg3d import meshes
@@ -956,12 +1042,13 @@ def correspondence(ctx):
     texts = [(f"c16_oaw_{g}", COQ_HEADER + '\n'.join(oaw_eval_term(cases[k], impls[k]) for k in grp) + '\n')
              for g, grp in enumerate(groups)]
     # construct_mesh
-    n_cm = 64 if ctx.thorough else 24
+    n_cm = 96 if ctx.thorough else 36
     cmc, cmi = [], []
-    n_one = n_cm // 2                  # half of the stream: one option in one direction only
+    n_one = n_cm // 3                  # a third: one option in one direction only
+    n_mar = n_cm // 3                  # a third: marine (sea surface + z-vector)
     while len(cmc) < n_cm:
-        one = len(cmc) < n_one
-        c = gen_cm_onedir(rng) if one else gen_cm(rng)
+        one = len(cmc) < n_one + n_mar
+        c = (gen_cm_onedir(rng) if len(cmc) < n_one else gen_cm_marine(rng)) if one else gen_cm(rng)
         im = run_cm(c)
         if im['cost'] > (4 * cap if one else cap):
             skipped += 1
@@ -998,6 +1085,9 @@ def correspondence(ctx):
             compare_cm(c, im, parse_ans(a), dis, inputs=parse_ans(ai))
             if c.get('onedir'):
                 cmh['onedir/' + c['onedir']] = cmh.get('onedir/' + c['onedir'], 0) + 1
+            if c.get('marine'):
+                mk = 'marine/' + c['marine'] + ('/warn' if 2 in im['warns'] else '')
+                cmh[mk] = cmh.get(mk, 0) + 1
             key = 'kind%d/props%d' % (im['kind'], 0 if c['scalar_props'] else len(c['properties']))
             cmh[key] = cmh.get(key, 0) + 1
             for nm in ('domain', 'vector', 'distance', 'stretching', 'limits', 'pps', 'coe'):
@@ -1270,7 +1360,10 @@ def search(ctx, broken):
     # construct_mesh: one option in one direction only (x/y agree otherwise), and the general stream
     n_cm = 300 if ctx.thorough else 120
     for k in range(n_cm):
-        case = gen_cm_onedir(rng, natural=(k % 3 != 0)) if k % 4 != 3 else gen_cm(rng)
+        if k % 3 == 1:
+            case = gen_cm_marine(rng, natural=(k % 2 == 0))
+        else:
+            case = gen_cm_onedir(rng, natural=(k % 3 != 0)) if k % 4 != 3 else gen_cm(rng)
         try:
             bad = check_cm_case(case)
         except Exception as e:
@@ -1281,7 +1374,8 @@ def search(ctx, broken):
                          'fn': 'construct_mesh', 'case': _jsonable_cm(case), 'violated': bad})
             return hits
     ctx.notes.append(f"searcher: per-direction postconditions evaluated on {n_cm} construct_mesh calls "
-                     f"(3/4 with one option given for one direction only)")
+                     f"(1/3 marine: sea surface + z-vector, domain below/at/above the sea surface; about half with one "
+                     f"option given for one direction only)")
     n = 600 if ctx.thorough else 250
     tried = returned = 0
     for k in range(n):
